@@ -214,7 +214,7 @@ static bool step(Ctx& c) {
       return true;
     }
     case 7: case 8: {  // vmp: matrix from fresh small entries; apply to Z (7) or to D (8)
-      uint64_t nrows = 1 + r.below(3), ncols = 1 + r.below(3), rsz = 1 + r.below(4);
+      uint64_t nrows = 1 + r.below(4), ncols = 1 + r.below(5), rsz = 1 + r.below(5);
       int a = pick(c, op == 7 ? KZ : KD);
       if (a < 0) return false;
       Var& A = c.vars[a];
